@@ -31,7 +31,7 @@ def Budgets (bad : Res) (m m' : Nat) : Prop := m' = m ∨ (m' = 0 ∧ bad = .err
 structure AllRel (bad : Res) (f m f' m' : Nat) : Prop where
   one : ∀ s o b, Rel bad (execOne f m s o b) (execOne f' m' s o b)
   body : ∀ s o b, Rel bad (execBody f m s o b) (execBody f' m' s o b)
-  tail : ∀ s o b, Rel bad (execTail f m s o b) (execTail f' m' s o b)
+  tail : ∀ s o b c, Rel bad (execTail f m s o b c) (execTail f' m' s o b c)
   run : ∀ s r o i n, Rel bad (runBody f m s r o i n) (runBody f' m' s r o i n)
   call : ∀ s id, Rel bad (callBuiltin f m s id) (callBuiltin f' m' s id)
   forL : ∀ s v i l p, Rel bad (forLoop f m s v i l p) (forLoop f' m' s v i l p)
@@ -93,11 +93,19 @@ theorem step_execBody {bad : Res} {f m f' m' : Nat} (ih : AllRel bad f m f' m')
   repeat' split
   all_goals first
     | exact Rel.rfl' _
-    | exact ih.tail s o b
+    | exact ih.tail s o b b
+
+theorem rel_leave {bad : Res} {c : Bool} {p q : State × Res} (h : Rel bad p q) :
+    Rel bad (leaveLevel c p) (leaveLevel c q) := by
+  intro hb
+  have : p.2 ≠ bad := by
+    unfold leaveLevel at hb
+    split at hb <;> exact hb
+  rw [h this]
 
 theorem step_execTail {bad : Res} {f m f' m' : Nat} (hbad : Passed bad) (hm : Budgets bad m m')
-    (ih : AllRel bad f m f' m') (s : State) (o : Obj) (b : Bool) :
-    Rel bad (execTail (f + 1) m s o b) (execTail (f' + 1) m' s o b) := by
+    (ih : AllRel bad f m f' m') (s : State) (o : Obj) (b c : Bool) :
+    Rel bad (execTail (f + 1) m s o b c) (execTail (f' + 1) m' s o b c) := by
   unfold execTail
   conv => zeta
   generalize ({ s with numOps := s.numOps + 1 } : State) = s'
@@ -111,7 +119,7 @@ theorem step_execTail {bad : Res} {f m f' m' : Nat} (hbad : Passed bad) (hm : Bu
   · split
     · split
       · exact Rel.rfl' _
-      · exact ih.tail s' _ true
+      · exact ih.tail s' _ true c
     · rename_i id
       have h1 := ih.call s' id
       generalize callBuiltin f m s' id = p1 at h1 ⊢
@@ -137,17 +145,20 @@ theorem step_execTail {bad : Res} {f m f' m' : Nat} (hbad : Passed bad) (hm : Bu
       split
       · split
         · exact Rel.rfl' _
-        · have h1 := ih.run s' ref off 0 (len - 1)
-          generalize runBody f m s' ref off 0 (len - 1) = p1 at h1 ⊢
-          generalize runBody f' m' s' ref off 0 (len - 1) = p1' at h1 ⊢
-          sync p1 h1 using bad hbad
-          split
-          rename_i s1 r1
-          split
-          · split
-            · exact ih.tail s1 _ false
-            · exact Rel.rfl' _
+        · split
           · exact Rel.rfl' _
+          · apply rel_leave
+            have h1 := ih.run (enterLevel c s') ref off 0 (len - 1)
+            generalize runBody f m (enterLevel c s') ref off 0 (len - 1) = p1 at h1 ⊢
+            generalize runBody f' m' (enterLevel c s') ref off 0 (len - 1) = p1' at h1 ⊢
+            sync p1 h1 using bad hbad
+            split
+            rename_i s1 r1
+            split
+            · split
+              · exact ih.tail s1 _ false true
+              · exact Rel.rfl' _
+            · exact Rel.rfl' _
       · exact Rel.rfl' _
     · exact Rel.rfl' _
 
@@ -365,7 +376,7 @@ theorem Rel.trans {bad : Res} {p q r : State × Res} (h1 : Rel bad p q) (h2 : Re
 theorem AllRel.refl (bad : Res) (f m : Nat) : AllRel bad f m f m :=
   ⟨fun _ _ _ => Rel.rfl' _,
    fun _ _ _ => Rel.rfl' _,
-   fun _ _ _ => Rel.rfl' _,
+   fun _ _ _ _ => Rel.rfl' _,
    fun _ _ _ _ _ => Rel.rfl' _,
    fun _ _ => Rel.rfl' _,
    fun _ _ _ _ _ => Rel.rfl' _,
@@ -381,7 +392,7 @@ theorem AllRel.trans {bad : Res} {f m f' m' f'' m'' : Nat} (h1 : AllRel bad f m 
     (h2 : AllRel bad f' m' f'' m'') : AllRel bad f m f'' m'' :=
   ⟨fun s o b => (h1.one s o b).trans (h2.one s o b),
    fun s o b => (h1.body s o b).trans (h2.body s o b),
-   fun s o b => (h1.tail s o b).trans (h2.tail s o b),
+   fun s o b c => (h1.tail s o b c).trans (h2.tail s o b c),
    fun s r o i n => (h1.run s r o i n).trans (h2.run s r o i n),
    fun s id => (h1.call s id).trans (h2.call s id),
    fun s v i l p => (h1.forL s v i l p).trans (h2.forL s v i l p),
@@ -422,7 +433,7 @@ theorem fuel_succ (m : Nat) : ∀ f, AllRel .fuel f m (f + 1) m
   | 0 =>
     ⟨fun _ _ _ => rel_of_bad (by simp only [execOne]),
      fun _ _ _ => rel_of_bad (by simp only [execBody]),
-     fun _ _ _ => rel_of_bad (by simp only [execTail]),
+     fun _ _ _ _ => rel_of_bad (by simp only [execTail]),
      fun _ _ _ _ _ => rel_of_bad (by simp only [runBody]),
      fun _ _ => rel_of_bad (by simp only [callBuiltin]),
      fun _ _ _ _ _ => rel_of_bad (by simp only [forLoop]),
@@ -449,9 +460,9 @@ theorem execBody_fuel_succ (f m : Nat) (s : State) (o : Obj) (b : Bool)
     (h : (execBody f m s o b).2 ≠ .fuel) : execBody (f + 1) m s o b = execBody f m s o b :=
   (fuel_succ m f).body s o b h
 
-theorem execTail_fuel_succ (f m : Nat) (s : State) (o : Obj) (b : Bool)
-    (h : (execTail f m s o b).2 ≠ .fuel) : execTail (f + 1) m s o b = execTail f m s o b :=
-  (fuel_succ m f).tail s o b h
+theorem execTail_fuel_succ (f m : Nat) (s : State) (o : Obj) (b c : Bool)
+    (h : (execTail f m s o b c).2 ≠ .fuel) : execTail (f + 1) m s o b c = execTail f m s o b c :=
+  (fuel_succ m f).tail s o b c h
 
 theorem runBody_fuel_succ (f m : Nat) (s : State) (r o i n : Nat)
     (h : (runBody f m s r o i n).2 ≠ .fuel) : runBody (f + 1) m s r o i n = runBody f m s r o i n :=
@@ -501,9 +512,9 @@ theorem execBody_fuel_mono {f f' : Nat} (hf : f ≤ f') (m : Nat) (s : State) (o
     (h : (execBody f m s o b).2 ≠ .fuel) : execBody f' m s o b = execBody f m s o b :=
   (fuel_le m hf).body s o b h
 
-theorem execTail_fuel_mono {f f' : Nat} (hf : f ≤ f') (m : Nat) (s : State) (o : Obj) (b : Bool)
-    (h : (execTail f m s o b).2 ≠ .fuel) : execTail f' m s o b = execTail f m s o b :=
-  (fuel_le m hf).tail s o b h
+theorem execTail_fuel_mono {f f' : Nat} (hf : f ≤ f') (m : Nat) (s : State) (o : Obj) (b c : Bool)
+    (h : (execTail f m s o b c).2 ≠ .fuel) : execTail f' m s o b c = execTail f m s o b c :=
+  (fuel_le m hf).tail s o b c h
 
 theorem runBody_fuel_mono {f f' : Nat} (hf : f ≤ f') (m : Nat) (s : State) (r o i n : Nat)
     (h : (runBody f m s r o i n).2 ≠ .fuel) : runBody f' m s r o i n = runBody f m s r o i n :=
